@@ -244,6 +244,11 @@ static bool monitor_step(Theo::VM &vm, std::string &why) {
 static void judge_c03(const glue::Files &files, const std::string &main, const gp::Program *ast, Result &r) {
   r.sample = glue::files_json(files, main);
   r.hash = glue::files_hash(files, main);
+  if (!ast && glue::explosive_expansion(files, main)) {  // mutated macro definitions can reproduce themselves (see glue.hpp)
+    r.discard = true;
+    r.cls("skipped:divergent-growing-expansion");
+    return;
+  }
   Theo::CodegenResult cr = Theo::compile(files, main);
   if (!cr.generated_correctly) {
     r.discard = true;
